@@ -8,7 +8,7 @@ use std::sync::OnceLock;
 
 // @h c04_range_manifest | <ManifestPack as Pack>::check; ManifestCheckStream::{new_from_offset_iter,read}; PackOffsetsIter; CheckInfo::check | as c04_range_directory, for a manifest without pack table (the masking itself: c04_mask_step / c04_mask_setup) | exactly [0, check_info_pos) is hashed through the masking stream; pristine verifies, altered does not | body <= 20 bytes, no packs
 
-fn mk(reader: Reader, cip: u64) -> ManifestPack {
+pub(crate) fn mk(reader: Reader, cip: u64) -> ManifestPack {
     let pack_header = PackHeader {
         magic: PackKind::Manifest, app_vendor_id: VendorId::from([0u8; 4]), major_version: 0, minor_version: 2,
         uuid: uuid::Uuid::from_bytes([1u8; 16]), flags: 0, file_size: Size::new(cip + 37 + 64), check_info_pos: Offset::new(cip) };
@@ -25,4 +25,12 @@ hharness! {
     fn c04_range_manifest() {
         if kani::any() { check_range(8, mk) } else { check_range(20, mk) }
     }
+}
+
+/// A manifest listing the given content packs (for the C11 harness in reader::jubako).
+pub(crate) fn mk_with_packs(reader: Reader, infos: Vec<PackInfo>, max_id: u16) -> ManifestPack {
+    let mut m = mk(reader, 8);
+    m.pack_infos = infos;
+    m.max_id = max_id;
+    m
 }
